@@ -533,4 +533,67 @@ theorem C03_implies_operand_hull (b : α) (self : Bounds α) (x y : Opd α) (hwf
     have : c = ry.lo := by simpa using hv
     simp [this]
 
+/-! ## non-vacuity: concrete instances over ℚ meet every hypothesis, and the two steps really
+tighten bounds -/
+
+/-- weights (1/2, 1, 2) — operands `[1/4,3/4]`, `[1/2,1]`, `[0,1]` -/
+def exOps : List (Opd ℚ) := [⟨1/2, 1/4, 3/4⟩, ⟨1, 1/2, 1⟩, ⟨2, 0, 1⟩]
+
+def exSelf : Bounds ℚ := ⟨1/2, 3/4⟩
+
+example : WfIn exSelf exOps := by
+  unfold WfIn exSelf exOps
+  simp; norm_num
+
+/-- a feasible assignment: `1 - 1/2·(1/2) - 1·0 - 2·(1/8) = 1/2` -/
+example : Feasible 1 exSelf exOps [1/2, 1, 7/8] := by
+  simp [Feasible, InBounds, exSelf, exOps, andVal, andPre, wsum, clamp01]; norm_num
+
+/-- bias 1, operator bounds `[1/2, 3/4]`: the connective keeps `[1/2,3/4]` (upward gives `[0,7/8]`),
+operand 1 keeps `[1/4,3/4]`, operand 2 is tightened to `[5/8,1]`, operand 3 to `[13/16,1]` -/
+example : andUpDown 1 exSelf exOps = (⟨1/2, 3/4⟩, [⟨1/4, 3/4⟩, ⟨5/8, 1⟩, ⟨13/16, 1⟩]) := by
+  simp [andUpDown, writeBack, aggregate, andUp, andDown, exSelf, exOps, termLo, termHi, sumW, clamp01]
+  norm_num
+
+/-- an infeasible instance: upward gives `[0,7/8]`, the operator is claimed to be in `[15/16,1]` -/
+example : ¬ ∃ xs, Feasible 1 (⟨15/16, 1⟩ : Bounds ℚ) exOps xs := by
+  rw [exists_feasible_iff 1 _ exOps (by unfold WfIn exOps; simp; norm_num)]
+  simp [andUpDown, aggregate, andUp, exOps, termLo, termHi, clamp01]
+  norm_num
+
+example : (andUpDown 1 (⟨15/16, 1⟩ : Bounds ℚ) exOps).1 = ⟨15/16, 7/8⟩ := by
+  simp [andUpDown, aggregate, andUp, exOps, termLo, termHi, clamp01]
+  norm_num
+
+/-- a weight-0 operand is left alone while the other one is tightened to `[1/2,1]` -/
+example : andUpDown 1 (⟨1/2, 1⟩ : Bounds ℚ) [⟨0, 1/4, 1/2⟩, ⟨1, 0, 1⟩]
+    = (⟨1/2, 1⟩, [⟨1/4, 1/2⟩, ⟨1/2, 1⟩]) := by
+  simp [andUpDown, writeBack, aggregate, andUp, andDown, termLo, termHi, sumW, clamp01]
+  norm_num
+
+example : OrFeasible 1 exSelf exOps [1/4, 1/2, 0] := by
+  simp [OrFeasible, InBounds, exSelf, exOps, orVal, psum, clamp01]; norm_num
+
+/-- Or with the same data: upward gives `[5/8,1]`, so the connective becomes `[5/8,3/4]` and every
+operand is tightened from above -/
+example : orUpDown true 1 exSelf exOps
+    = (⟨5/8, 3/4⟩, [⟨1/4, 1/2⟩, ⟨1/2, 5/8⟩, ⟨0, 1/16⟩]) := by
+  simp [orUpDown, writeBack, aggregate, orUp, orDown, andDown, negB, Opd.neg, exSelf, exOps, termLo,
+    termHi, sumW, clamp01]
+  norm_num
+
+example : WfIn exSelf [(⟨1, 1/2, 1⟩ : Opd ℚ), ⟨2, 0, 1⟩] := by
+  unfold WfIn exSelf
+  simp; norm_num
+
+example : ImpFeasible 1 exSelf (⟨1, 1/2, 1⟩ : Opd ℚ) ⟨2, 0, 1⟩ 1 (1/4) := by
+  simp [ImpFeasible, exSelf, impVal, clamp01]; norm_num
+
+/-- Implies `x → y` with weights (1, 2): `y` is tightened from `[0,1]` to `[0,3/8]` -/
+example : impliesUpDown 1 exSelf (⟨1, 1/2, 1⟩ : Opd ℚ) ⟨2, 0, 1⟩
+    = (⟨1/2, 3/4⟩, [⟨1/2, 1⟩, ⟨0, 3/8⟩]) := by
+  simp [impliesUpDown, writeBack, aggregate, impliesUp, impliesDown, andDown, negB, Opd.neg, exSelf,
+    termLo, termHi, sumW, clamp01]
+  norm_num
+
 end LNN
